@@ -8,6 +8,8 @@ from typing import List
 from harness.extract import acl as x_acl
 from harness.extract import filter as x_filter
 from harness.extract import filter_soft as x_soft
+from harness.extract import filter_power as x_power
+from harness.extract import filter_senders as x_senders
 from harness.lib.core import TRUSTED_BASE, VERIF, Ctx, lean_lock, run_driver, shrink_ops
 from harness.rigs import filter as rig
 from harness.rigs import net as netrig
@@ -54,6 +56,19 @@ MANIFEST = {
             "ignores every frame not addressed to it (C06_host_deaf). certifyN accepts interior routers (closure proved for rtrStd). "
             "A blocking element WITH its Terminal behaves like one without for every frame that carries no live session id of it "
             "(C06_terminal_confined_unless_authorised; by C16: unless A holds valid credentials of an account on it). "
+            "(6, Props/C06Power.lean, round 7) BLOCKS IN FORCE DURING A TRANSITIONAL POWER STATE: the node power state machine with its "
+            "countdowns is carried as PROGRAMS of a small statement language (Model/FilterPower.lean) that are compared with the "
+            "statement-by-statement translation of Node.power_on / power_off / reset / the two countdown blocks of apply_timestep / "
+            "_start_up_actions / _shut_down_actions (Gen/FilterPower.lean, C06_gen_power_programs; enable() refuses unless the node is ON: "
+            "C06_gen_power_interfaces); C06_power_inv_run: for EVERY history of power requests, timesteps, interface / link / software / "
+            "rule-list operations, all durations and countdown values, a node that is not ON has every interface disabled; "
+            "C06_not_on_inert / C06_transitional_inert: at every moment of any history at which a device of ANY kind is OFF, SHUTTING_DOWN "
+            "or BOOTING a frame on any port changes nothing, is not forwarded and not handed to software; C06_shutdown_window / "
+            "C06_boot_window / C06_reset_window: for every positive duration the device IS not-ON in the step of the accepted request and "
+            "after each tick of the countdown (d, u, d+u+1 ticks); C06_power_hook_silent: what the hooks / enable() try to send while every "
+            "interface is down is dropped; C06_gen_wireless: a wireless router's access point receives as a RouterInterface, the airspace "
+            "delivers to the other enabled interfaces of the sender's frequency only; C06_gen_senders: every sending call site of every "
+            "application / service is one of five sanctioned kinds ending in the session manager, none reaches outside the node. "
             "Ties: Gen/Filter.lean, Gen/FilterSoft.lean regenerated from router.py, firewall.py, switch.py, host_node.py, base.py, "
             "session_manager.py, arp.py, protocols/arp.py (order of guards and calls, list per entry point, branch shapes, port "
             "dispatch, power guards, own-source stamping, send_frame call sites, cross-node reaches, enable sites, ARPPacket "
@@ -61,7 +76,12 @@ MANIFEST = {
             "rig R-net (generated switched / routed / firewall+DMZ topologies, every block mechanism, red repertoire from A "
             "before and after the block, B-side describe_state against an idle run, per-frame denied=>inert wrappers, all three "
             "certificates asked on the real post-block network and on the unblocked one, the host/switch/ARP models validated on "
-            "every transmitted frame).",
+            "every transmitted frame; round 7: an ENUMERATED transitional family - every device kind on the path x shutdown countdown / "
+            "boot countdown / reset window x positive durations, A acting in the step of the request and at every tick of the window, the "
+            "device's operating state at each of A's operations checked against the window theorems AND (operating state, interface flags) "
+            "after every request / tick / re-enable attempt compared with the Lean interpreter of the translated power programs through "
+            "drv_c06; a WIRELESS family: two WirelessRouters over the airspace, blocks by rule list, power, disabled access point, other "
+            "frequency, removed cable, with the airspace rendered as a wire for all four certificates).",
     "note": "Partial: the reachability theorem concludes about protected HOSTS only (other devices of the zone do change) and asks "
             "of attacker-side nodes that they do not forge a protected source address or an ARP payload (proved for hosts and "
             "switches); a firewall second-stage block reached FROM THE DMZ is covered only when both candidate second lists deny (the "
@@ -69,13 +89,14 @@ MANIFEST = {
             "rules keep the closure hypothesis EmitsCl; that a device's own services answer to the source and that process_frame "
             "forwards the received frame are model assumptions tied by Gen shape tables and validated on every transmitted frame; a Terminal on the blocking element (command execution reaches the "
             "request dispatcher) and user-installed software are outside the confined set; node-off inertness for hosts/switches/"
-            "firewalls rests on C12's invariant (not ON => interfaces disabled); shared mutable frames/payload aliasing and "
+            "firewalls rests on the invariant not ON => interfaces disabled (proved in Props/C06Power.lean for the translated power "
+            "methods; power operations are modelled as atomic state changes without emissions); shared mutable frames/payload aliasing and "
             "application-level relays are outside the model.",
     "technique": "Lean 4 theorems over executable element models + generic cut theorem; model tied by regenerated tables and "
                  "two differential/oracle rigs",
     "design_ref": "5/C06",
 }
-MODULES = ["PrimaiteModel.Lemmas.C06Cut", "PrimaiteModel.Props.C06", "PrimaiteModel.Props.C06Class", "PrimaiteModel.Props.C06Deny", "PrimaiteModel.Props.C06Rtr", "PrimaiteModel.Props.C06Net", "PrimaiteModel.Props.C06Reach"]
+MODULES = ["PrimaiteModel.Lemmas.C06Cut", "PrimaiteModel.Props.C06", "PrimaiteModel.Props.C06Class", "PrimaiteModel.Props.C06Deny", "PrimaiteModel.Props.C06Rtr", "PrimaiteModel.Props.C06Net", "PrimaiteModel.Props.C06Reach", "PrimaiteModel.Props.C06Power"]
 EXE = "drv_c06"
 
 
@@ -98,6 +119,12 @@ def replay(rec: dict) -> bool:
         return ok and not any(rig.per_frame_oracle(a) for a in impl)
     if r.get("rig") == "net":
         res = netrig.run_scenario(r["scenario"], control=False)
+        if res["pw"]["lines"]:
+            with lean_lock():
+                from harness.lib.core import lake_build
+                lake_build([EXE])
+            if run_driver(EXE, ["reset"] + res["pw"]["lines"])[1:] != res["pw"]["impl"]:
+                return False
         return not res["violations"] and not res["model_bad"]
     return True
 
@@ -110,11 +137,20 @@ def _run_filter(ctx: Ctx):
     for k in range(ctx.scale(250, 4000)):
         cases.append((f"gen:{k}", rig.gen_case(rng, max_frames=ctx.scale(12, 24))))
     impl_all, lines_all, bounds = [], [], []
+    kept, build_bad = [], []
     for name, case in cases:
-        impl, lines = rig.run_impl(case)
+        try:
+            impl, lines = rig.run_impl(case)
+        except Exception as e:  # the implementation raised while the element was being BUILT / configured: no frame to blame
+            build_bad.append(f"{name}: {type(e).__name__}: {str(e)[:100]}")
+            continue
+        kept.append((name, case))
         bounds.append((len(lines_all), len(lines)))
         lines_all += lines
         impl_all.append(impl)
+    cases = kept
+    ctx.oblige("rig:R-filter every generated element could be built and configured on the implementation", "correspondence", not build_bad,
+               "; ".join(build_bad[:5]))
     model_all = run_driver(EXE, lines_all)
     agree = 0
     for (name, case), impl, (st, ln) in zip(cases, impl_all, bounds):
@@ -135,6 +171,10 @@ def _run_filter(ctx: Ctx):
                 nontrivial = True
             if parts["sent"]:
                 ctx.count("filter:sent")
+            if " raised:" in a:
+                ctx.violation({"kind": "exception-in-frame-processing", "element": case["kind"], "exc": a.split(" raised:")[1]},
+                              f"{case['kind']}: the element's frame processing raised {a.split(' raised:')[1]} on `{q}`",
+                              {"rig": "filter", "case": case, "line": q, "impl": a, "from": name})
             bad = rig.per_frame_oracle(a)
             if bad:
                 ctx.violation({"kind": "denied-frame-not-inert", "element": case["kind"], "acl": acls[-1].split(":")[0]},
@@ -168,6 +208,10 @@ def run(ctx: Ctx):
     with lean_lock():
         ctx.extract("Filter", x_filter.emit)
         ctx.extract("FilterSoft", x_soft.emit)
+        # Node.power_on / power_off / reset / apply_timestep / the two hooks, translated statement by statement (C06_gen_power_programs)
+        ctx.extract("FilterPower", x_power.emit)
+        # inventory of every emitter call site of the software layer (C06_gen_senders: all go through the session manager)
+        ctx.extract("FilterSenders", x_senders.emit)
         # Props/C06 builds on C07's verdict theorems, whose Gen tables must be current as well
         ctx.extract("Acl", x_acl.emit)
         ctx.extract("AclMatch", x_acl.emit_match)
@@ -192,7 +236,10 @@ def run(ctx: Ctx):
         "C06_certifiedC/N_unchanged (FwSecondOK), validated by R-net's count of frames put on protected-side wires",
         "C06: frame classes: destination-/protocol-specific rules and attacker-side interior routers keep the closure hypothesis "
         "EmitsCl (validated by R-net on every transmitted frame); source classes and the any-class over hosts and switches are proved",
-        "C06: node-off inertness of hosts/switches/firewalls rests on C12's invariant 'not ON => interfaces disabled' (F-13/F-14)",
+        "C06: node-off inertness of hosts/switches/firewalls rests on the invariant 'not ON => interfaces disabled' (F-13/F-14), since "
+        "round 7 proved inside C06 for the translated power programs (C06_power_inv_run); what stays assumed: frames handled by the node's "
+        "software do not flip interface flags (SoftKeeps, as before), IPWiredNetworkInterface.enable's default_gateway_hello (a node that "
+        "IS on), wireless routers are not in the rig's families (their enable() guard is pinned by C06_gen_power_interfaces)",
         "C06: frames are values in the model (the code shares one mutable Frame object among the recipients of a flood); frames "
         "whose IP protocol is TCP/UDP carry that header (enforced by Frame.__init__)",
     ]
